@@ -42,7 +42,7 @@ def _make_sources(td, layout, rng=None, exts=None):
         recs = []
         w = RecordWriter(path)
         for kind in spec.replace("!", ""):
-            r = A(n=k, s=f"s{k}\udcff" if k % 2 else f"s{k}", ts=T1, ts2=T2, _generated=GEN) if kind == "A" else B(n=k, t=f"t{k}", _generated=GEN)
+            r = A(n=k, s=f"s{k}\udcff" if k % 2 else f"s{k}", ts=(None if k == 2 else T1), ts2=(None if k % 3 == 1 or k == 2 else T2), _generated=GEN) if kind == "A" else B(n=k, t=f"t{k}", _generated=GEN)
             k += 1
             w.write(r)
             recs.append(r)
